@@ -206,7 +206,9 @@ CHECKS = {
          "all other parameters unchanged and in order - removing a positional parameter makes the following ones explicit; "
          "keep_field keeps the name. The model follows remove/_should_remove/_fix_dependendent_params/add with the library's own "
          "key-visibility choice (incl. showing the key for a value whose '=' cannot be escaped) and is tied to /repo by comparing (stripped name, showkey) lists after every call. The re-parse "
-         "clause (render, parse, compare names/values/visibility; get() finds the value) is checked by the oracle, not proved.",
+         "clause (render, parse, compare names/values/visibility; get() finds the value) is checked by the oracle, not proved; what IS proved "
+         "about values: after _surface_escape (modelled, tied by running the real function) no '|' - and for a hidden key no '=' - is left "
+         "outside the brackets of a nested node, headings and external links included, and nothing else is changed.",
     design_ref="DESIGN.md section 5, C10",
     note="Trusted: names are plain text; showkey=/before=/after= not passed; values opaque in the model; the re-parse clause is testing. No axioms.",
     technique="Coq proof (invariant by induction over operation sequences on the parameter list) + model/implementation correspondence + re-parse oracle"),
